@@ -140,6 +140,7 @@ structure CSt where
   expected : Option Int := none      -- `_expected_content_remaining`
   out : List Bytes := []             -- every `stream.write(data)`, in order
   closed : Bool := false             -- `stream.closed()`
+  disconnect : Bool := false         -- `_disconnect_on_finish`
   sent : List Bytes := []                                -- ghost: chunks accepted by `_format_chunk`
   head : Option (Nat × List (Str × Str)) := none         -- ghost: status + header lines as serialised
   deriving Repr, BEq, DecidableEq
@@ -167,22 +168,33 @@ def headBytes (code : Nat) (hs : List (Str × Str)) : Bytes :=
 
 def noBodyStatus (code : Nat) : Bool := code = 204 || code = 304 || (100 ≤ code && code < 200)
 
-/-- the header map after the adjustments `write_headers` makes (`chunking` already decided) -/
-def finalHeaders (rq : Req) (chunking : Bool) (h : HMap) : HMap :=
-  let h := if rq.v11 && disconnect rq then hset h nConn vClose else h
-  let h := if !rq.v11 && rq.conn == .keepAlive then hset h nConn vKeepAlive else h
+/-- an HTTP/1.0 keep-alive response can be kept alive only if its end is visible without closing
+    (after the `fix:` commit for D12) -/
+def http10Delimited (rq : Req) (code : Nat) (h : HMap) : Bool :=
+  hhas h nCL || rq.method == .head || noBodyStatus code
+
+/-- the header map after the adjustments `write_headers` makes (`chunking` already decided;
+    `disc` = `_disconnect_on_finish` on entry) -/
+def finalHeaders (rq : Req) (disc : Bool) (chunking : Bool) (code : Nat) (h : HMap) : HMap :=
+  let h := if rq.v11 && disc then hset h nConn vClose else h
+  let h := if !rq.v11 && rq.conn == .keepAlive && http10Delimited rq code h then hset h nConn vKeepAlive else h
   if chunking then hset h nTE vChunked else h
+
+/-- `_disconnect_on_finish` after `write_headers` -/
+def discAfterHeaders (rq : Req) (disc : Bool) (code : Nat) (h : HMap) : Bool :=
+  disc || (!rq.v11 && rq.conn == .keepAlive && !http10Delimited rq code h)
 
 def decideChunking (rq : Req) (code : Nat) (h : HMap) : Bool :=
   rq.v11 && rq.method != .head && !(code = 204 || code = 304) && (code < 100 || code ≥ 200) && !hhas h nCL
 
 /-- `write_headers(start_line, headers, chunk)`; the Bool is "raised" -/
-def cWriteHeaders (rq : Req) (c : CSt) (code : Nat) (h : HMap) (chunk : Bytes) : CSt × Bool :=
+def cWriteHeaders (rq : Req) (c0 : CSt) (code : Nat) (h : HMap) (chunk : Bytes) : CSt × Bool :=
+  let c := c0
   let chunking := decideChunking rq code h
-  let h := finalHeaders rq chunking h
-  let c := { c with chunking := chunking }
+  let c := { c with chunking := chunking, disconnect := discAfterHeaders rq c.disconnect code h }
+  let h := finalHeaders rq c0.disconnect chunking code h
   let exp : Option (Option Int) :=
-    if rq.method == .head || code = 304 then some (some 0)
+    if rq.method == .head || noBodyStatus code then some (some 0)  -- (1xx/204: after the `fix:` commit for D25)
     else if hhas h nCL then (parseDec (hget h nCL)).map (fun n => some (n : Int))
     else some none
   match exp with
@@ -205,16 +217,16 @@ def cWrite (c : CSt) (chunk : Bytes) : CSt × Bool :=
     | (c, some data) => ({ c with out := c.out ++ [data] }, false)
 
 /-- `HTTP1Connection.finish()` followed by `_finish_request` (writes complete immediately) -/
-def cFinish (rq : Req) (c : CSt) : CSt × Bool :=
+def cFinish (c : CSt) : CSt × Bool :=
   match c.expected with
   | some r =>
     if r ≠ 0 && !c.closed then ({ c with closed := true }, true)
     else
       let c := if c.chunking && !c.closed then { c with out := c.out ++ [lastChunk] } else c
-      ({ c with closed := c.closed || disconnect rq }, false)
+      ({ c with closed := c.closed || c.disconnect }, false)
   | none =>
     let c := if c.chunking && !c.closed then { c with out := c.out ++ [lastChunk] } else c
-    ({ c with closed := c.closed || disconnect rq }, false)
+    ({ c with closed := c.closed || c.disconnect }, false)
 
 /-! ### handler layer -/
 
@@ -230,7 +242,7 @@ structure St where
 def defaultHdrs (rq : Req) : HMap :=
   [(nServer, [rq.serverV]), (nCT, [vDefaultCT]), (nDate, [rq.dateV])]
 
-def init (rq : Req) : St := { hdrs := defaultHdrs rq }
+def init (rq : Req) : St := { hdrs := defaultHdrs rq, conn := { disconnect := disconnect rq } }
 
 inductive Op where
   | setStatus (code : Nat)
@@ -283,7 +295,7 @@ def hFinish (rq : Req) (s : St) (chunk : Option Bytes) : St × Bool :=
     if r then (s, true) else
     let (s, r) := hFlush rq s
     if r then (s, true) else
-    let (c, r) := cFinish rq s.conn
+    let (c, r) := cFinish s.conn
     let s := { s with conn := c }
     if r then (s, true) else ({ s with finished := true }, false)
 
